@@ -194,7 +194,7 @@ class UlpiSpec(Spec):
         self.converge = cfg.get("converge", 0)
         self.stable = cfg.get("stable", 8)
         self._memo = {}
-        self.time_budget = cfg.get("time_budget", 60 if tier == "quick" else 800)
+        self.time_budget = cfg.get("time_budget", 200 if tier == "quick" else 850)      # wall-clock safety net only; all configurations close well before
         if "max_states" in cfg: self.max_states = cfg["max_states"]
 
     # env = (p, u, c, bud, rxm, txm, regm)
@@ -212,14 +212,19 @@ class UlpiSpec(Spec):
 
     def prologue(self, cur):
         env = self.env0()
-        for _ in range(40):
-            env = self.cycle(cur, env, (self.phy.benign(env[0]), 0, 0))
+        try:
+            for _ in range(40):
+                env = self.cycle(cur, env, (self.phy.benign(env[0]), 0, 0))
+        except Violation as v:           # report it as the first (and only) transition of the exploration
+            self._prologue_violation = v
+            return ("!", v.rule)
         p = env[0]
         if p[:2] == ("I", 0) and (p[4], p[5]) == self.req[0]:
             self.cover["prologue-settled"] += 1
         return env
 
     def actions(self, env):
+        if env[0] == "!": return ["prologue"]
         p, u, c, bud = env[0], env[1], env[2], env[3]
         pcs = self.phy.choices(p, bud[0] is None or bud[0] > 0)
         ucs = [0]
@@ -231,6 +236,11 @@ class UlpiSpec(Spec):
         return [(pc, uc, cc) for pc in pcs for uc in ucs for cc in ccs]
 
     def apply(self, cur, env, action):
+        if env[0] == "!":
+            v = getattr(self, "_prologue_violation", None)
+            if v is None:               # re-execution by the engine: the prologue ran in this process as well
+                raise Violation(env[1], "raised during the reset prologue (benign PHY, initial register writes)")
+            raise Violation(v.rule, dict(during="reset prologue (benign PHY, initial register writes)", detail=v.detail))
         env2 = self.cycle(cur, env, action)
         if self.converge:
             self.check_convergence(cur, env2)
@@ -368,7 +378,7 @@ class UlpiSpec(Spec):
             if None not in hcmd:
                 got = (o.line_state, o.vbus_valid, o.session_end)
                 if got not in [decode_flags(v) for v in hcmd]:
-                    raise Violation("rx-flags-stale" + sfx, dict(got=dict(line_state=got[0], vbus_valid=got[1], session_end=got[2]),
+                    raise Violation("rx-flags-mismatch" + sfx, dict(got=dict(line_state=got[0], vbus_valid=got[1], session_end=got[2]),
                                                                last_rxcmds=hcmd, phy=p, choice=pc))
         elif o.rx_valid and queue:
             queue = queue[1:]
